@@ -1034,6 +1034,67 @@ static void macro_families(Rng& r)
   }
 }
 
+
+// "A statement whose encoded size fits in the thread's current queue buffer performs no allocation": whether a
+// statement fits cannot depend on how fresh the producer's cached view of the consumer position is. For string
+// lengths around the capacity, one new thread per probe: (A) first statement after preallocate() - the reservation is
+// decided on the cached position; (B) a small statement, flush_log() (queue drained, position published), then the
+// probe - the reservation is decided after the producer re-reads the position. Both see an EMPTY queue of the same
+// capacity, so the largest length that is accepted without growing the queue must be the same.
+static void exact_fit_probe()
+{
+  struct Res { uint64_t allocs{0}; size_t cap_before{0}, cap_after{0}; };
+  auto probe = [](size_t L, bool stale) -> Res
+  {
+    Res res;
+    std::thread([&]
+                {
+                  Fe::preallocate();
+                  res.cap_before = Fe::get_thread_local_queue_capacity();
+                  if (stale)
+                  {
+                    LOG_INFO(g_logger, "small {}", 1);
+                    g_logger->flush_log(0);
+                  }
+                  std::string const big(L, 'x');
+                  std::string_view const sv{big};
+                  tl_alloc().reset();
+                  {
+                    ArmAlloc arm;
+                    LOG_INFO(g_logger, "{}", sv);
+                    res.allocs = tl_alloc().heap_allocs + tl_alloc().mmaps;
+                  }
+                  res.cap_after = Fe::get_thread_local_queue_capacity();
+                  g_logger->flush_log(0);
+                })
+      .join();
+    return res;
+  };
+  size_t const cap = probe(8, false).cap_before;
+  long last_fit_a = -1, last_fit_b = -1;
+  uint64_t probes = 0;
+  for (size_t L = cap - 120; L <= cap && !g_failed; ++L)
+  {
+    Res const a = probe(L, false), b = probe(L, true);
+    probes += 2;
+    if (!a.allocs) last_fit_a = static_cast<long>(L);
+    if (!b.allocs) last_fit_b = static_cast<long>(L);
+    if ((a.allocs == 0) != (b.allocs == 0))
+    {
+      violation("C11", "log-call-allocated-on-the-calling-thread",
+                J{}.str("shape", "string_view of a length around the queue capacity, empty queue").unum("string_length", L).unum("queue_capacity", cap)
+                  .unum("allocations_first_statement_of_the_thread", a.allocs).unum("allocations_after_a_small_statement_and_flush", b.allocs)
+                  .unum("capacity_after_first", a.cap_after).unum("capacity_after_second", b.cap_after)
+                  .str("what", "the same statement on the same empty queue grows the queue in one case and fits in the other"));
+      g_failed = true;
+    }
+    g_stats.add("alloc_free_class_calls_checked", 2);
+  }
+  g_stats.add("exact_fit_probes", static_cast<long long>(probes));
+  if (last_fit_a >= 0 && last_fit_a < static_cast<long>(cap)) g_stats.add("exact_fit_thresholds_located_inside_the_sweep");
+  (void)last_fit_b;
+}
+
 int main(int argc, char** argv)
 {
   Args a{argc, argv};
@@ -1072,6 +1133,7 @@ int main(int argc, char** argv)
     e.fn(e.name, r, reps);
   }
   if (g_mode == Mode::Alloc && !g_failed && CODEC_PART == 0) macro_families(r);
+  if (g_mode == Mode::Alloc && !g_failed && CODEC_PART == 0 && VF_CAN_INTERPOSE) exact_fit_probe();
   if (g_mode == Mode::Fmt && !g_failed && CODEC_PART == 0)
   {
     // the macro family that passes file / line / function at run time formats its message through a separate path
